@@ -56,6 +56,14 @@ using TopP = TbfAlgorithmPeriodicTopTree<Real, KernelClassP, MultipoleClass, Loc
 static unsigned long lcg;
 static double rnd(){ lcg = lcg * 6364136223846793005UL + 1442695040888963407UL; return double(lcg >> 11) / double(1UL << 53); }
 
+// chargemode: 0 all +0.01, 1 random sign/magnitude; 2 / 3 / 4: charge sets A, B and A+B over the same positions (linearity)
+static Real pick_charge(long chargemode){
+    if(chargemode == 0) return Real(0.01);
+    if(chargemode == 1) return Real((rnd() < 0.5 ? -1 : 1) * (0.002 + 0.02 * rnd()));
+    const double qa = (rnd() < 0.5 ? -1 : 1) * (0.002 + 0.02 * rnd()), qb = (rnd() < 0.5 ? -1 : 1) * (0.002 + 0.02 * rnd());
+    return Real(chargemode == 2 ? qa : (chargemode == 3 ? qb : qa + qb));
+}
+
 template <class Algo, class... KArgs>
 void run_algo(const TbfSpacialConfiguration<Real, Dim>& conf, TreeClass& tree, KArgs&&... kargs){
     std::unique_ptr<Algo> algo(new Algo(conf, std::forward<KArgs>(kargs)...));
@@ -74,7 +82,7 @@ static std::string run_periodic(const Cmd& c){
     std::vector<std::array<Real, Dim+1>> pos(N);
     for(long i = 0 ; i < N ; ++i){
         pos[i][0] = Real(cx + (rnd() - 0.5) * 0.998 * w); pos[i][1] = Real(cy + (rnd() - 0.5) * 0.998 * w); pos[i][2] = Real(cz + (rnd() - 0.5) * 0.998 * w);
-        pos[i][3] = chargemode == 0 ? Real(0.01) : Real((rnd() < 0.5 ? -1 : 1) * (0.002 + 0.02 * rnd()));
+        pos[i][3] = pick_charge(chargemode);
     }
     TreeClassP tree(conf, TbfUtils::make_const(pos), B, mode != 0);
     std::array<long, Dim> lo, hi;
@@ -146,7 +154,7 @@ int main(int argc, char** argv){
         for(long i = 0 ; i < N ; ++i){
             // strictly inside the box (margin 1e-3 of the width) to stay away from the face-rounding issue of C06
             pos[i][0] = Real(cx + (rnd() - 0.5) * 0.998 * w); pos[i][1] = Real(cy + (rnd() - 0.5) * 0.998 * w); pos[i][2] = Real(cz + (rnd() - 0.5) * 0.998 * w);
-            pos[i][3] = chargemode == 0 ? Real(0.01) : Real((rnd() < 0.5 ? -1 : 1) * (0.002 + 0.02 * rnd()));
+            pos[i][3] = pick_charge(chargemode);
         }
         if(place != 0){
             // place = bitmask (1 polar axis, 2 x axis, 4 y axis, 8 exact centre, 16 face, 32 edge): a third of the particles on special positions of their leaf cell: on the axes through the cell centre (above and
